@@ -5,6 +5,7 @@ import (
 	"go/token"
 	"go/types"
 	"sort"
+	"strings"
 
 	"golang.org/x/tools/go/ssa"
 )
@@ -237,6 +238,29 @@ func ruleR25(p *Prog) []Ob {
 						continue // the source does not exist: there is nothing to back up
 					}
 					bad = append(bad, p.at(rt)+": returns success without handing the segment's files to the copy")
+				}
+			}
+		}
+		// a level of the chain fails only because something it called failed: it does not refuse a
+		// source on grounds of its own (a directory a backup wrote, or one restored from elsewhere,
+		// has segment files and nothing else)
+		for _, rt := range returnsOf(fn) {
+			ei := errResultIndex(fn)
+			if ei < 0 || ei >= len(rt.Results) {
+				continue
+			}
+			if c, ok := returnOperand(rt, ei).(*ssa.Call); ok {
+				own := false
+				switch calleeName(c.Common()) {
+				case "errors.New":
+					own = true
+				case "fmt.Errorf":
+					if f, ok := constString(c.Call.Args[0]); ok && !strings.Contains(f, "%w") {
+						own = true
+					}
+				}
+				if own {
+					bad = append(bad, p.at(rt)+": the backup is refused with an error of this function's own making")
 				}
 			}
 		}
